@@ -564,7 +564,13 @@ type c16BlockCase struct {
 	Fixture string   `json:"fixture"`
 	Ctor    string   `json:"ctor"`
 	Ops     []string `json:"ops"`
+	// Other: a second block ("fixture|ctor") that is constructed AFTER the block under test and before
+	// its accessors are called (wrappers must be independent of each other)
+	Other string `json:"other,omitempty"`
 }
+
+// c16OtherFor passes the Other field to c16RunBlock (keyed by the worker).
+var c16OtherFor sync.Map
 
 type c16BlockRun struct {
 	w       *mc.W
@@ -1058,6 +1064,33 @@ func c16RunBlock(w *mc.W, fixture, ctor string, ops []c16Op, wantKey, sweep bool
 		return "constructor-fails"
 	}
 	r.b = b
+	if v, ok := c16OtherFor.Load(w); ok {
+		c16OtherFor.Delete(w)
+		parts := strings.SplitN(v.(string), "|", 2)
+		oser := c16BlockRefs[parts[0]].ser
+		mc.Guard(func() {
+			for rep := 0; rep < 2; rep++ { // twice, so that pooled scratch state is handed out again
+				switch parts[1] {
+				case "NewBlockFromReader":
+					ob, _ := bchutil.NewBlockFromReader(bytes.NewReader(oser))
+					if ob != nil {
+						ob.Bytes()
+						ob.Hash()
+					}
+				case "NewBlockFromBytes":
+					ob, _ := bchutil.NewBlockFromBytes(append([]byte{}, oser...))
+					if ob != nil {
+						ob.Transactions()
+						ob.TxLoc()
+					}
+				default:
+					ob := bchutil.NewBlock(c16BuildBlock(parts[0]))
+					ob.Bytes()
+					ob.TxLoc()
+				}
+			}
+		})
+	}
 	if !r.observe() {
 		return "unusable"
 	}
@@ -1106,7 +1139,10 @@ func c16EvalBlock(w *mc.W, cas c16BlockCase) {
 	for i, s := range cas.Ops {
 		ops[i] = c16ParseOp(s, false)
 	}
-	c16RunBlock(w, cas.Fixture, cas.Ctor, ops, false, true)
+	if cas.Other != "" {
+		c16OtherFor.Store(w, cas.Other)
+	}
+	c16RunBlock(w, cas.Fixture, cas.Ctor, ops, false, cas.Fixture != "b65536")
 }
 
 // ---------------------------------------------------------------------------------------
@@ -1477,6 +1513,21 @@ func runC16(c *mc.Ctx) {
 			huge = append(huge, c16BlockCase{Fixture: "b65536", Ctor: ct, Ops: []string{"TxLoc", "Bytes", "Tx(65535)", "TxHash(0)", "Tx(65536)"}},
 				c16BlockCase{Fixture: "b65536", Ctor: ct, Ops: []string{"Tx(65535)", "TxLoc", "Hash"}})
 		}
+		// two live wrappers: a second, different block is parsed between the construction of the block
+		// under test and its accessors (scratch state shared between wrappers would show here)
+		var pairs []c16BlockCase
+		for _, fx := range []string{"b3", "b300", "b65536"} {
+			for _, ct := range c16BlockCtors {
+				for _, other := range []string{"b300|NewBlockFromReader", "b65536|NewBlockFromReader", "b3tok|NewBlockFromBytes", "b300|NewBlock"} {
+					if strings.HasPrefix(other, fx+"|") {
+						continue
+					}
+					pairs = append(pairs, c16BlockCase{Fixture: fx, Ctor: ct, Ops: []string{"Bytes", "TxLoc", "Hash", "Tx(0)"}, Other: other})
+				}
+			}
+		}
+		c.Space("block: wrapper under test x a second block constructed in between", int64(len(pairs)))
+		c16ParFor(c, int64(len(pairs)), func(w *mc.W, i int64) { c16EvalBlock(w, pairs[i]) })
 		c.Space("block: 65536-transaction fixture x constructor x fixed call sequences", int64(len(huge)))
 		c16ParFor(c, int64(len(huge)), func(w *mc.W, i int64) {
 			ops := make([]c16Op, len(huge[i].Ops))
